@@ -453,12 +453,14 @@ async fn run_c17(sc: &Value, attempt: u64, rec: Arc<Recorder>) -> Value {
     }
     let loss = [ev1.as_str(), ev2.as_str()].iter().any(|e| matches!(*e, "SocketLoss" | "PeerSctpShutdown"));
     let blocked = ev1 == "BlockedSender";
-    cfg.fast_timers = loss;
+    let flaps = sc.get("flaps").and_then(|x| x.as_u64()).unwrap_or(0);
+    cfg.fast_timers = loss && flaps == 0;
+    cfg.flap_timers = flaps > 0;
     cfg.small_sctp_buffer = blocked || phase == "senderBlocked";
 
     // loss scenarios: the DTLS handshake deadline (30 s) and retransmission tick (1 s) are shortened too
-    rustrtc::verif::set_override("dtls_deadline_ms", if loss { Some(3000) } else { None });
-    rustrtc::verif::set_override("dtls_retransmit_ms", if loss { Some(300) } else { None });
+    rustrtc::verif::set_override("dtls_deadline_ms", if loss && flaps == 0 { Some(3000) } else { None });
+    rustrtc::verif::set_override("dtls_retransmit_ms", if loss && flaps == 0 { Some(300) } else { None });
 
     let base_tasks = alive_tasks();
     let base_socks = socket_count();
@@ -490,7 +492,14 @@ async fn run_c17(sc: &Value, attempt: u64, rec: Arc<Recorder>) -> Value {
 
     let drops = ev1 == "Drop" || ev2 == "Drop";
     // the victim's event pump would hold a second handle; a dropping application has none
-    let pair = Pair::new_with(&cfg, !(drops && victim == "A"), !(drops && victim == "B"));
+    // scenarios with a recoverable blackout: the peer's connection lives on a single-worker runtime of its own, which
+    // the harness freezes (its only worker blocks) and releases again
+    let rt_b = if flaps > 0 {
+        Some(tokio::runtime::Builder::new_multi_thread().worker_threads(1).enable_all().build().unwrap())
+    } else {
+        None
+    };
+    let pair = Pair::new_on(&cfg, !(drops && victim == "A"), !(drops && victim == "B"), rt_b.as_ref().map(|r| r.handle().clone()));
     *plan.a.lock() = Some(pair.a.clone());
     *plan.b.lock() = Some(pair.b.clone());
     let v = pair.side(&victim).clone();
@@ -604,6 +613,27 @@ async fn run_c17(sc: &Value, attempt: u64, rec: Arc<Recorder>) -> Value {
             .await;
             if !ok {
                 notes.push("media not flowing within 5 s".into());
+                return;
+            }
+        }
+        for k in 0..flaps {
+            // recoverable blackout: freeze the peer until the victim reports Disconnected, release it, wait for
+            // Connected again
+            let Some(rt) = rt_b.as_ref() else { break };
+            let (tx, rx) = std::sync::mpsc::channel::<()>();
+            log("life", &victim, "flap", json!({"what": "begin", "k": k}));
+            // (the frozen endpoint finds its own ICE silent for as long when it thaws)
+            log("life", if victim == "A" { "B" } else { "A" }, "flap", json!({"what": "begin", "k": k}));
+            rt.handle().spawn(async move {
+                let _ = rx.recv();
+            });
+            let down = wait_until(Duration::from_secs(20), || v.peer_state() == Some(PS::Disconnected)).await;
+            drop(tx);
+            let up = down && wait_until(Duration::from_secs(20), || v.peer_state() == Some(PS::Connected)).await;
+            log("life", &victim, "flap", json!({"what": "end", "k": k, "down": down, "up": up}));
+            log("life", if victim == "A" { "B" } else { "A" }, "flap", json!({"what": "end", "k": k}));
+            if !(down && up) {
+                notes.push(format!("flap {k} did not go down/up (down={down} up={up})"));
                 return;
             }
         }
@@ -785,7 +815,11 @@ async fn run_c17(sc: &Value, attempt: u64, rec: Arc<Recorder>) -> Value {
     if let Some(pc) = v.try_pc() {
         let l = v.label.clone();
         if reached {
-            api.push(api_call(&l, "wait_for_connected", bound, pc.wait_for_connected(), okerr).await);
+            // Disconnected + IceDisconnected is the state after the grace period: ICE may still recover or fail (at
+            // ice_connection_timeout), so waiting for Connected is legitimate there and is not judged
+            if !(obs_peer == "Disconnected" && obs_reason == "IceDisconnected") {
+                api.push(api_call(&l, "wait_for_connected", bound, pc.wait_for_connected(), okerr).await);
+            }
             api.push(api_call(&l, "create_offer", bound, pc.create_offer(), okerr).await);
             let id = v.dc.lock().as_ref().map(|d| d.id).unwrap_or(0);
             api.push(api_call(&l, "send_data", bound, pc.send_data(id, b"after"), okerr).await);
@@ -856,6 +890,9 @@ async fn run_c17(sc: &Value, attempt: u64, rec: Arc<Recorder>) -> Value {
     drop(v);
     drop(other);
     drop(pair);
+    if let Some(rt) = rt_b {
+        rt.shutdown_background();
+    }
     let t_rel = Instant::now();
     let released = wait_until(Duration::from_secs(10), || alive_tasks() <= base_tasks && socket_count() <= base_socks).await;
     let rel_ms = t_rel.elapsed().as_millis() as u64;
